@@ -5,7 +5,7 @@ CONSTANT Mode = "dag"
 CONSTANT Alphabet = "small"
 CONSTANT NAtoms = 2
 CONSTANT NPairs = 4
-CONSTANT AtomsFirst = FALSE
+CONSTANT AtomsFirst = TRUE
 CONSTANT MaxOps = 0
 CONSTANT Cpbs = {1}
 CONSTANT MaxCost = 100000000
@@ -16,6 +16,8 @@ INVARIANT TableOK
 INVARIANT InternerOK
 INVARIANT AgreesWithLib
 INVARIANT ValueOnly
+INVARIANT HashFormAgrees
+INVARIANT ValueLawsAgree
 INVARIANT UniqueAreSubTrees
 INVARIANT SerRelation
 INVARIANT TriangleInv
